@@ -250,6 +250,18 @@ def gen_tg(rng, tier, cls, i):
         gaps=cls in ("tg_gaps", "tg_edge_gaps") or rng.random() < 0.3, points=points,
         start0=(rng.choice([9.0, 9.5, 8.75, 99.0, 7.0]) if cls == "tg_bigtimes" and rng.random() < 0.6 else None),
     )
+    tiny = cls == "tg_gaps" and rng.random() < 0.5
+    if tiny:
+        # gaps of a few units of the LAST PRINTED DIGIT (sub-millisecond for p >= 4): still gaps, and
+        # still to be filled on request; all times lie exactly on the printed grid
+        p, points = rng.choice([3, 4, 4, 5, 6]), False
+        u, segs = rng.randint(0, 3000), []
+        for _ in range(n):
+            if segs and rng.random() < 0.7:
+                u += rng.choice([1, 1, 2, 5, 8])
+            d = rng.choice([1, 3, 40, 700, 2500])
+            segs.append((u / 10 ** p, (u + d) / 10 ** p))
+            u += d
     if cls == "tg_prec0":
         # spread over several seconds so that rounding to whole seconds both merges and separates
         segs = [(s * 3, e * 3) for s, e in segs]
@@ -272,7 +284,7 @@ def gen_tg(rng, tier, cls, i):
         "tier_name": rng.choice(TG_TIER_NAMES) if rng.random() < 0.6 else None,
         "by_name": rng.random() < 0.5,
         "start_time": None, "end_time": None, "fill": None, "edge_gaps": cls == "tg_edge_gaps",
-        "default_precision": rng.random() < 0.1,
+        "default_precision": rng.random() < 0.1 and not tiny, "tiny_gaps": tiny,
     }
     if cls == "tg_edge_gaps" or rng.random() < 0.4:
         case["start_time"] = max(0.0, lo - rng.choice([0.0, 0.5, 1.0, 2.25]))
